@@ -147,6 +147,12 @@ def norm(o):
     return list(o[:2])
 
 
+def strip_messages(rows):
+    """The separate interpreter reports exception messages too (useful when reading a log); variants are
+    compared by exception class, as the in-memory ones are."""
+    return [[o[:2] if o and o[0] == 'EXC' else o for o in row] for row in rows]
+
+
 def features(g, src):
     f = set()
     ks = peg.kinds(g)
@@ -197,13 +203,13 @@ def variants_outcomes(g, entries, texts, sa, extends_parent=None):
             fname = sut.fresh_name('vfsa')
             sa.save(fname, src)
             r = sa.ask(fname, entries, texts, g.mode == 'bytes')
-            out['standalone-unnamed'] = r['out'] if r.get('ok') else 'standalone:' + r.get('error', '?')
+            out['standalone-unnamed'] = strip_messages(r['out']) if r.get('ok') else 'standalone:' + r.get('error', '?')
             if r.get('ok') and r.get('loaded'):
                 out['standalone-unnamed'] = 'standalone imported third-party modules: %s' % r['loaded']
         if 'named+source' in mods:
             sa.save(name, mods['named+source']._source_code)
             r = sa.ask(name, entries, texts, g.mode == 'bytes')
-            out['standalone-named'] = r['out'] if r.get('ok') else 'standalone:' + r.get('error', '?')
+            out['standalone-named'] = strip_messages(r['out']) if r.get('ok') else 'standalone:' + r.get('error', '?')
             # a grammar that extends the named one, emitted and executed on its own next to its parent
             dname = sut.fresh_name('vfc11d_')
             dm, derr = sut.compile_grammar('grammar %s extends %s\nExtraRuleOfDerived = "zz"\n' % (dname, name),
@@ -218,7 +224,7 @@ def variants_outcomes(g, entries, texts, sa, extends_parent=None):
                 out['derived'] = rows
                 sa.save(dname, dm._source_code)
                 r = sa.ask(dname, entries, texts, g.mode == 'bytes')
-                out['standalone-derived'] = r['out'] if r.get('ok') else 'standalone:' + r.get('error', '?')
+                out['standalone-derived'] = strip_messages(r['out']) if r.get('ok') else 'standalone:' + r.get('error', '?')
                 sut.forget(dname)
             else:
                 out['derived'] = 'compile:%s' % (derr[1] if len(derr) > 1 else derr[0])
